@@ -167,6 +167,8 @@ def gen(rng, i, tier):
         c["costs"] = [x if pb.F(x) != 0 else "1/1" for x in c["costs"]]
     if rule not in ("mes", "mes_iter", "increase", "completion"):
         c["init"] = E.feasible_subset(rng, c["costs"], c["budget"])
+    if rule == "increase" and c.get("base") in ("phragmen", "greedy") and rng.random() < 0.5:
+        c["init"] = E.feasible_subset(rng, c["costs"], c["budget"])   # wrappers around rules that accept one
     if rule == "maxw_ilp":
         # the property excludes the all-zero knapsack row (every undecided project costs 0): CBC aborts
         und = [j for j in range(n) if j not in c["init"]]
@@ -220,6 +222,7 @@ def _call(case):
         else:
             f, params = R.sequential_phragmen, {"tie_breaking": tb}
         return R.exhaustion_by_budget_increase(inst, prof, f, params, resoluteness=res,
+                                               initial_budget_allocation=(init or None),
                                                exhaustive_stop=case["exhaustive_stop"],
                                                budget_step=pb.num(case["step"])), inst
     raise ValueError(rule)
